@@ -321,3 +321,33 @@ Definition cmd_page_spec (args : list sexp) : sexp :=
   | [today; p] => sList sNote (spec_page (dDate3 today) (dPage p))
   | _ => err "page_spec: arity"
   end.
+
+(* ---- a decision procedure for the hypotheses of the page theorems (Proofs/PageFacts.v proves it sound);
+   the harness evaluates it on every generated page ---- *)
+Definition is_ok {A} (r : res A) : bool := match r with Ok _ => true | _ => false end.
+Definition valid_identb (i : ident) : bool :=
+  match i with
+  | IPlain s => negb (is_short_date_spec s) && negb (is_zid s)
+  | IZid z => negb (is_short_date_spec z) && is_zid z && is_ok (from_short (zid_day z))
+  | IModZid m z => is_short_date_spec m && is_ok (from_short m) && is_zid z && is_ok (from_short (zid_day z))
+  | ILong d => negb (is_short_date_spec d) && negb (is_zid d) && is_ok (from_long d)
+  end.
+Definition nonempty (s : str) : bool := match s with [] => false | _ => true end.
+Definition valid_itemb (it : item) : bool :=
+  let body := strip (words_text (item_words it)) in
+  valid_identb (i_ident it) && nonempty body && negb (contains (S ":: ") body) && negb (contains (S "::" ++ [nlc]) body).
+Definition valid_mwordb (w : word) : bool := match w with WDate d => is_ok (from_long d) | _ => true end.
+Fixpoint valid_secb (lvl : nat) (s : gsec) : bool :=
+  match s with
+  | GSec title bs subs =>
+      (lvl <? 4)%nat && forallb valid_mwordb title && forallb (forallb valid_itemb) bs &&
+      (fix go (ss : list gsec) : bool := match ss with [] => true | s' :: r => valid_secb (Datatypes.S lvl) s' && go r end) subs
+  end.
+Fixpoint valid_secsb (lvl : nat) (ss : list gsec) : bool :=
+  match ss with [] => true | s' :: r => valid_secb lvl s' && valid_secsb lvl r end.
+Definition valid_pageb (pg : apage) : bool :=
+  forallb valid_mwordb (pg_title pg) && forallb (forallb valid_itemb) (pg_blocks pg) &&
+  valid_secsb 1 (pg_h2s pg) && valid_secsb 0 (pg_h1s pg).
+
+Definition cmd_page_valid (args : list sexp) : sexp :=
+  match args with [p] => sB (valid_pageb (dPage p)) | _ => err "page_valid: arity" end.
